@@ -10,7 +10,9 @@ RULE = (
     "peer / insert of a new peer / close of a registered peer raises the wake count; (no lost wake-up) after the "
     "final drain nothing deliverable is left on a registered peer; (bounded bypass) while a registered peer i has "
     "an undelivered item, no other peer is delivered more than once before i. Non-trivial: some poll returned "
-    "Pending and a later one Ready, or two peers had items queued simultaneously. Budget families (finding D17): the "
+    "Pending and a later one Ready, or two peers had items queued simultaneously. Waker families: `setwaker n` makes later polls come with another waker "
+    "(recv called from another task / future, the earlier call abandoned while parked); every line reports WHICH waker was "
+    "woken last; Spec: the wake-up after a Pending poll goes to the waker THAT poll was made with. Budget families (finding D17): the "
     "op `exhaust` (top level, or inside a stream's poll) makes every stream poll wake itself and return Pending until "
     "the call returns, as tokio's cooperative budget does; the call must return (the harness reports LIVELOCK after "
     "20000 stream polls within one call), with the receiver woken, and the re-polls must deliver everything."
@@ -29,6 +31,8 @@ def cases(tier, rng):
     out += list(fqgen.windows("window", tier != "quick"))
     out += list(fqgen.exhaustive(2, 4 if tier == "quick" else 5, "exh2-budget", extra=["exhaust"]))
     out += list(fqgen.exhaust_cases(rng, 300 if tier == "quick" else 4000, "budget"))
+    out += list(fqgen.exhaustive(2, 4 if tier == "quick" else 5, "exh2-wakers", extra=["setwaker 1", "setwaker 2"]))
+    out += list(fqgen.waker_cases(rng, 300 if tier == "quick" else 4000, "wakers"))
     out += list(fqgen.random_cases(rng, 1500 if tier == "quick" else 20000, "random"))
     # heavy-traffic fairness: one chatty peer with a deep backlog, others with one item each
     for i in range(60 if tier == "quick" else 600):
@@ -55,6 +59,8 @@ def oracle(case, lines):
     a = fqgen.analyse(case, lines)
     win = a["windowed"]
     last_wk = 0
+    cur_waker = 0        # the waker polls are made with (op `setwaker`)
+    pending_by = None    # the waker the poll that parked was made with
     # replay bookkeeping in op order
     inserted, removed, closed = set(), set(), set()
     pend = {}  # arrived but not delivered, per key
@@ -66,6 +72,9 @@ def oracle(case, lines):
         wk = int(l.rsplit("wakes=", 1)[1]) if "wakes=" in l else None
         wk_before, last_wk = last_wk, (wk if wk is not None else last_wk)
         if w[0] == "window":
+            continue
+        if w[0] == "setwaker":
+            cur_waker = int(w[1])
             continue
         k = int(w[1]) if len(w) > 1 else None
         wakeable = False
@@ -85,6 +94,10 @@ def oracle(case, lines):
             if pending_wakes is not None and wakeable and not (win & ({k} | inserted)):
                 if wk is not None and wk <= pending_wakes:
                     return f"receiver was parked (wakes={pending_wakes}) and `{op}` did not wake it (wakes={wk})"
+                woken = l.split(" w=", 1)[1].split()[0] if " w=" in l else None
+                if woken is not None and woken != str(pending_by):
+                    return (f"receiver was parked by a poll made with waker {pending_by}; `{op}` woke waker {woken} instead "
+                            "(a waker left behind by an earlier, abandoned call): the pending recv is never resumed")
                 pending_wakes = None
             # fresh owed peers start counting from now
             for i in list(inserted):
@@ -97,6 +110,7 @@ def oracle(case, lines):
             pending_wakes = None  # woken during the call itself (it yielded): it is notified, not waiting
         elif p[0] == "pending":
             pending_wakes = wk
+            pending_by = cur_waker
         else:
             pending_wakes = None
         if p[0] == "ready" and p[1] != "none":
